@@ -264,6 +264,10 @@ impl Instruction {
 
 impl Exec for Instruction {
     fn exec(&self, interpreter: &mut Interpreter) -> ExecResult {
+        #[cfg(feature = "verif")]
+        if !crate::verif::take_bypass() {
+            return crate::verif::observed_exec(self, interpreter);
+        }
         match_any! { self,
             Self::Variable(var) => Ok(var.clone()),
             Self::LocalVariable(ident, _) => interpreter
